@@ -439,6 +439,219 @@ func TestVerif_C05_BN254(t *testing.T) {
 			return
 		}
 
+		// ---- ScalarMult on the ladder-boundary scalar family x small multiples of G (ecMul flow), against the reference
+		fam := c05ScalarFamily(5, 3) // (q*n+j)*2^s+t must fit 256 bits and n ~ 0.19*2^256, so only q*2^s <= 5 survives: the family is complete in both tiers
+		r.Bound("ladder_scalar_family", len(fam))
+		baseKs := []int64{0, 1, 2, 3, 4, 5, 6, 7, 8, 1234567}
+		r.Bound("ladder_base_points_g1", len(baseKs))
+		genRef := &c05Aff{big.NewInt(1), big.NewInt(2)}
+		baseEnc := make([][]byte, len(baseKs))
+		baseRef := make([]*c05Aff, len(baseKs))
+		for i, k := range baseKs {
+			baseRef[i] = c05RefMul(big.NewInt(k), genRef)
+			baseEnc[i] = c05RefEnc(baseRef[i])
+		}
+		r.Parallel(len(fam)*len(baseKs), func(i int) {
+			if c05Stop(r) {
+				return
+			}
+			s, bi := fam[i/len(baseKs)], i%len(baseKs)
+			want := c05RefKG(new(big.Int).Mul(s, big.NewInt(baseKs[bi])))
+			r.Case(c05Case{Op: "scalarmult-ladder", A: fmt.Sprintf("%dG", baseKs[bi]), K: s.Text(16)}, func() error {
+				for _, bk := range bks {
+					x, err := bk.g1(baseEnc[bi])
+					if err != nil {
+						return fmt.Errorf("%s rejects %dG (%x): %v", bk.name, baseKs[bi], baseEnc[bi], err)
+					}
+					if got := bk.g1bytes(bk.mul(x, new(big.Int).Set(s))); !bytes.Equal(got, want) {
+						return fmt.Errorf("%s: %x * %dG = %x; reference ((k*b) mod n)*G = %x", bk.name, s, baseKs[bi], got, want)
+					}
+				}
+				return nil
+			})
+			r.DistinctHash(mc.Hash64(fmt.Sprintf("lad/%d/%s", bi, s.Text(16))))
+			if s.Cmp(c05N) > 0 {
+				r.Outcome("ladder_scalar_above_n")
+			} else {
+				r.Outcome("ladder_scalar_up_to_n")
+			}
+		})
+
+		// ---- operation chains on live (not re-encoded) G1 values, against the reference
+		type chain struct {
+			name string
+			// run builds the result with one backend; dec decodes an encoding, and the reference result is ref
+			run func(bk c05BN, dec func([]byte) any) any
+			ref *c05Aff
+		}
+		negEnc := func(a *c05Aff) []byte {
+			if a == nil {
+				return make([]byte, 64)
+			}
+			return c05RefEnc(&c05Aff{a.x, new(big.Int).Sub(c05P, a.y)})
+		}
+		chainScalars := []*big.Int{big.NewInt(1), big.NewInt(2), big.NewInt(3), big.NewInt(7), big.NewInt(1234567), sub(c05N, 1), new(big.Int).Add(c05N, two), sub(new(big.Int).Lsh(one, 256), 1)}
+		var chains []chain
+		for bi := range baseKs {
+			P, Penc := baseRef[bi], baseEnc[bi]
+			pn := fmt.Sprintf("%dG", baseKs[bi])
+			for _, k := range chainScalars {
+				k := k
+				kP := c05RefMul(new(big.Int).Mod(k, c05N), P)
+				kPenc := c05RefEnc(kP)
+				kn := k.Text(16)
+				chains = append(chains,
+					chain{"Add(Mul(" + pn + "," + kn + "), fresh(k*P))", func(bk c05BN, dec func([]byte) any) any { return bk.add(bk.mul(dec(Penc), k), dec(kPenc)) }, c05RefAdd(kP, kP)},
+					chain{"Add(fresh(k*P), Mul(" + pn + "," + kn + "))", func(bk c05BN, dec func([]byte) any) any { return bk.add(dec(kPenc), bk.mul(dec(Penc), k)) }, c05RefAdd(kP, kP)},
+					chain{"x=Mul(" + pn + "," + kn + "); Add(x,x)", func(bk c05BN, dec func([]byte) any) any { x := bk.mul(dec(Penc), k); return bk.add(x, x) }, c05RefAdd(kP, kP)},
+					chain{"Add(Mul(" + pn + "," + kn + "), Mul(" + pn + "," + kn + "))", func(bk c05BN, dec func([]byte) any) any { return bk.add(bk.mul(dec(Penc), k), bk.mul(dec(Penc), k)) }, c05RefAdd(kP, kP)},
+					chain{"Add(Mul(" + pn + "," + kn + "), fresh(-k*P))", func(bk c05BN, dec func([]byte) any) any { return bk.add(bk.mul(dec(Penc), k), dec(negEnc(kP))) }, nil},
+					chain{"Add(Mul(" + pn + "," + kn + "), " + pn + ")", func(bk c05BN, dec func([]byte) any) any { return bk.add(bk.mul(dec(Penc), k), dec(Penc)) }, c05RefAdd(kP, P)},
+					chain{"Mul(Mul(" + pn + "," + kn + "),2)", func(bk c05BN, dec func([]byte) any) any { return bk.mul(bk.mul(dec(Penc), k), big.NewInt(2)) }, c05RefAdd(kP, kP)},
+					chain{"Mul(Add(Mul(" + pn + "," + kn + ")," + pn + "),n+2)", func(bk c05BN, dec func([]byte) any) any {
+						return bk.mul(bk.add(bk.mul(dec(Penc), k), dec(Penc)), new(big.Int).Add(c05N, big.NewInt(2)))
+					}, c05RefMul(big.NewInt(2), c05RefAdd(kP, P))},
+				)
+			}
+			for bj := range baseKs {
+				Q, Qenc := baseRef[bj], baseEnc[bj]
+				qn := fmt.Sprintf("%dG", baseKs[bj])
+				PQ := c05RefAdd(P, Q)
+				PQenc := c05RefEnc(PQ)
+				chains = append(chains,
+					chain{"t=Add(" + pn + "," + qn + "); Add(t,t)", func(bk c05BN, dec func([]byte) any) any { t := bk.add(dec(Penc), dec(Qenc)); return bk.add(t, t) }, c05RefAdd(PQ, PQ)},
+					chain{"Add(Add(" + pn + "," + qn + "), fresh(P+Q))", func(bk c05BN, dec func([]byte) any) any { return bk.add(bk.add(dec(Penc), dec(Qenc)), dec(PQenc)) }, c05RefAdd(PQ, PQ)},
+					chain{"Add(fresh(P+Q), Add(" + pn + "," + qn + "))", func(bk c05BN, dec func([]byte) any) any { return bk.add(dec(PQenc), bk.add(dec(Penc), dec(Qenc))) }, c05RefAdd(PQ, PQ)},
+					chain{"Add(Add(" + pn + "," + qn + "), fresh(-(P+Q)))", func(bk c05BN, dec func([]byte) any) any { return bk.add(bk.add(dec(Penc), dec(Qenc)), dec(negEnc(PQ))) }, nil},
+					chain{"u=Add(Add(" + pn + "," + qn + ")," + pn + "); Add(u,u)", func(bk c05BN, dec func([]byte) any) any {
+						u := bk.add(bk.add(dec(Penc), dec(Qenc)), dec(Penc))
+						return bk.add(u, u)
+					}, c05RefMul(big.NewInt(2), c05RefAdd(PQ, P))},
+				)
+			}
+			chains = append(chains, chain{"Add(Mul(" + pn + ",3), Add(Add(" + pn + "," + pn + ")," + pn + "))", func(bk c05BN, dec func([]byte) any) any {
+				return bk.add(bk.mul(dec(Penc), big.NewInt(3)), bk.add(bk.add(dec(Penc), dec(Penc)), dec(Penc)))
+			}, c05RefMul(big.NewInt(6), P)})
+		}
+		r.Bound("live_chains_g1", len(chains))
+		r.Parallel(len(chains), func(i int) {
+			if c05Stop(r) {
+				return
+			}
+			ch := chains[i]
+			want := c05RefEnc(ch.ref)
+			r.Case(c05Case{Op: "chain-G1", A: ch.name}, func() error {
+				for _, bk := range bks {
+					dec := func(b []byte) any {
+						p, err := bk.g1(b)
+						if err != nil {
+							panic(fmt.Sprintf("%s rejects %x: %v", bk.name, b, err))
+						}
+						return p
+					}
+					if got := bk.g1bytes(ch.run(bk, dec)); !bytes.Equal(got, want) {
+						return fmt.Errorf("%s: %s = %x; reference %x", bk.name, ch.name, got, want)
+					}
+				}
+				return nil
+			})
+			r.Distinct("chain/" + ch.name)
+			if ch.ref == nil {
+				r.Outcome("chain_g1_infinity")
+			} else {
+				r.Outcome("chain_g1_point")
+			}
+		})
+
+		// ---- the same on G2 where the implementations expose group operations (cloudflare, google, gnark-crypto)
+		g2bks := c05G2Backends()
+		g2Ks := mc.Pick(r, []int64{0, 1, 2, 3, 7}, []int64{0, 1, 2, 3, 4, 5, 6, 7, 8, 1234567})
+		g2fam := fam
+		if r.Quick() { // G2 arithmetic of the big.Int backend is ~10x slower: quick keeps q*n+j and the 1-bit shifts
+			g2fam = c05ScalarFamily(2, 1)
+		}
+		r.Bound("ladder_scalar_family_g2", len(g2fam))
+		r.Bound("ladder_base_points_g2", len(g2Ks))
+		g2base := make([][]byte, len(g2Ks))
+		for i, k := range g2Ks { // encodings of k*H from gnark-crypto (k <= n: outside the degenerate family)
+			g2base[i] = g2bks[2].enc(g2bks[2].mul(g2bks[2].dec(g2gen), big.NewInt(k)))
+		}
+		r.Parallel(len(g2fam)*len(g2Ks), func(i int) {
+			if c05Stop(r) {
+				return
+			}
+			s, bi := g2fam[i/len(g2Ks)], i%len(g2Ks)
+			red := new(big.Int).Mod(new(big.Int).Mul(s, big.NewInt(g2Ks[bi])), c05N)
+			r.Case(c05Case{Op: "scalarmult-ladder-G2", A: fmt.Sprintf("%dH", g2Ks[bi]), K: s.Text(16)}, func() error {
+				var outs [][]byte
+				for _, bk := range g2bks {
+					got := bk.enc(bk.mul(bk.dec(g2base[bi]), new(big.Int).Set(s)))
+					// group law inside the same implementation: k*(b*H) = ((k*b) mod n)*H
+					if law := bk.enc(bk.mul(bk.dec(g2gen), red)); !bytes.Equal(got, law) {
+						return fmt.Errorf("%s: %x * %dH = %x, but ((k*b) mod n)*H = %x in the same backend", bk.name, s, g2Ks[bi], got, law)
+					}
+					outs = append(outs, got)
+				}
+				if !bytes.Equal(outs[0], outs[1]) || !bytes.Equal(outs[0], outs[2]) {
+					return fmt.Errorf("%x * %dH: cloudflare %x google %x gnark-crypto %x", s, g2Ks[bi], outs[0], outs[1], outs[2])
+				}
+				return nil
+			})
+			r.DistinctHash(mc.Hash64(fmt.Sprintf("lad2/%d/%s", bi, s.Text(16))))
+			r.Outcome("ladder_g2")
+		})
+		type chain2 struct {
+			name string
+			run  func(bk c05G2) any
+			k    *big.Int // expected result = (k mod n)*H
+		}
+		var chains2 []chain2
+		g2Scalars := []*big.Int{big.NewInt(1), big.NewInt(2), big.NewInt(7), sub(c05N, 1), new(big.Int).Add(c05N, two)}
+		for bi, b := range g2Ks {
+			Benc := g2base[bi]
+			bn := fmt.Sprintf("%dH", b)
+			for _, k := range g2Scalars {
+				k := k
+				kb := new(big.Int).Mod(new(big.Int).Mul(k, big.NewInt(b)), c05N)
+				kn := k.Text(16)
+				fresh := func(bk c05G2, m *big.Int) any {
+					return bk.dec(g2bks[2].enc(g2bks[2].mul(g2bks[2].dec(g2gen), new(big.Int).Mod(m, c05N))))
+				}
+				chains2 = append(chains2,
+					chain2{"Add(Mul(" + bn + "," + kn + "), fresh(k*P))", func(bk c05G2) any { return bk.add(bk.mul(bk.dec(Benc), k), fresh(bk, kb)) }, new(big.Int).Lsh(kb, 1)},
+					chain2{"Add(fresh(k*P), Mul(" + bn + "," + kn + "))", func(bk c05G2) any { return bk.add(fresh(bk, kb), bk.mul(bk.dec(Benc), k)) }, new(big.Int).Lsh(kb, 1)},
+					chain2{"x=Mul(" + bn + "," + kn + "); Add(x,x)", func(bk c05G2) any { x := bk.mul(bk.dec(Benc), k); return bk.add(x, x) }, new(big.Int).Lsh(kb, 1)},
+					chain2{"Add(Mul(" + bn + "," + kn + "), fresh(-k*P))", func(bk c05G2) any { return bk.add(bk.mul(bk.dec(Benc), k), fresh(bk, new(big.Int).Neg(kb))) }, new(big.Int)},
+					chain2{"t=Add(Mul(" + bn + "," + kn + ")," + bn + "); Add(t,t)", func(bk c05G2) any { t := bk.add(bk.mul(bk.dec(Benc), k), bk.dec(Benc)); return bk.add(t, t) },
+						new(big.Int).Lsh(new(big.Int).Add(kb, big.NewInt(b)), 1)},
+					chain2{"Mul(Add(Mul(" + bn + "," + kn + ")," + bn + "),n+2)", func(bk c05G2) any {
+						return bk.mul(bk.add(bk.mul(bk.dec(Benc), k), bk.dec(Benc)), new(big.Int).Add(c05N, big.NewInt(2)))
+					}, new(big.Int).Lsh(new(big.Int).Add(kb, big.NewInt(b)), 1)},
+				)
+			}
+		}
+		r.Bound("live_chains_g2", len(chains2))
+		r.Parallel(len(chains2), func(i int) {
+			if c05Stop(r) {
+				return
+			}
+			ch := chains2[i]
+			r.Case(c05Case{Op: "chain-G2", A: ch.name}, func() error {
+				want := g2bks[2].enc(g2bks[2].mul(g2bks[2].dec(g2gen), new(big.Int).Mod(ch.k, c05N))) // one reduced scalar mult of H
+				for _, bk := range g2bks {
+					if got := bk.enc(ch.run(bk)); !bytes.Equal(got, want) {
+						return fmt.Errorf("%s: %s = %x; (%v mod n)*H = %x", bk.name, ch.name, got, ch.k, want)
+					}
+				}
+				return nil
+			})
+			r.Distinct("chain2/" + ch.name)
+			r.Outcome("chain_g2")
+		})
+		if c05Stop(r) {
+			return
+		}
+
 		// ---- PairingCheck
 		type plist struct {
 			g1, g2 []int
@@ -570,4 +783,143 @@ func strings1(g1name string) string { // "3G" -> "3H"
 		return g1name[:len(g1name)-1] + "H"
 	}
 	return g1name
+}
+
+// ---------------------------------------------------------------------------
+// Independent G1 reference: affine arithmetic on y^2 = x^3 + 3 over F_p with
+// math/big (no code shared with any backend). nil = point at infinity.
+
+type c05Aff struct{ x, y *big.Int }
+
+func c05RefAdd(a, b *c05Aff) *c05Aff {
+	if a == nil {
+		return b
+	}
+	if b == nil {
+		return a
+	}
+	var l *big.Int
+	if a.x.Cmp(b.x) == 0 {
+		if new(big.Int).Mod(new(big.Int).Add(a.y, b.y), c05P).Sign() == 0 {
+			return nil
+		}
+		l = new(big.Int).Mul(a.x, a.x)
+		l.Mul(l, big.NewInt(3))
+		l.Mul(l, new(big.Int).ModInverse(new(big.Int).Lsh(a.y, 1), c05P))
+	} else {
+		l = new(big.Int).Sub(b.y, a.y)
+		d := new(big.Int).Sub(b.x, a.x)
+		d.Mod(d, c05P)
+		l.Mul(l, new(big.Int).ModInverse(d, c05P))
+	}
+	l.Mod(l, c05P)
+	x := new(big.Int).Mul(l, l)
+	x.Sub(x, a.x).Sub(x, b.x).Mod(x, c05P)
+	y := new(big.Int).Sub(a.x, x)
+	y.Mul(y, l).Sub(y, a.y).Mod(y, c05P)
+	return &c05Aff{x, y}
+}
+
+func c05RefMul(k *big.Int, a *c05Aff) *c05Aff {
+	var acc *c05Aff
+	for i := k.BitLen() - 1; i >= 0; i-- {
+		acc = c05RefAdd(acc, acc)
+		if k.Bit(i) == 1 {
+			acc = c05RefAdd(acc, a)
+		}
+	}
+	return acc
+}
+
+func c05RefEnc(a *c05Aff) []byte {
+	if a == nil {
+		return make([]byte, 64)
+	}
+	return c05Cat(c05Pad(a.x), c05Pad(a.y))
+}
+
+// c05RefKG is (k mod n)*G encoded, from the reference.
+func c05RefKG(k *big.Int) []byte {
+	return c05RefEnc(c05RefMul(new(big.Int).Mod(k, c05N), &c05Aff{big.NewInt(1), big.NewInt(2)}))
+}
+
+// c05G2 adapts a G2 implementation that exposes group operations (the gnark wrapper of
+// the client has none, so gnark-crypto's G2Affine is used directly as the third party).
+type c05G2 struct {
+	name string
+	dec  func(b []byte) any
+	enc  func(p any) []byte
+	add  func(a, b any) any
+	mul  func(a any, k *big.Int) any
+}
+
+func c05G2Backends() []c05G2 {
+	return []c05G2{
+		{"cloudflare",
+			func(b []byte) any { p := new(cf.G2); p.Unmarshal(b); return p },
+			func(p any) []byte { return p.(*cf.G2).Marshal() },
+			func(a, b any) any { return new(cf.G2).Add(a.(*cf.G2), b.(*cf.G2)) },
+			func(a any, k *big.Int) any { return new(cf.G2).ScalarMult(a.(*cf.G2), k) }},
+		{"google",
+			func(b []byte) any { p := new(gg.G2); p.Unmarshal(b); return p },
+			func(p any) []byte { return p.(*gg.G2).Marshal() },
+			func(a, b any) any { return new(gg.G2).Add(a.(*gg.G2), b.(*gg.G2)) },
+			func(a any, k *big.Int) any { return new(gg.G2).ScalarMult(a.(*gg.G2), k) }},
+		{"gnark-crypto",
+			func(b []byte) any {
+				p := new(gnarkbn.G2Affine)
+				p.X.A1.SetBytes(b[0:32])
+				p.X.A0.SetBytes(b[32:64])
+				p.Y.A1.SetBytes(b[64:96])
+				p.Y.A0.SetBytes(b[96:128])
+				return p
+			},
+			func(p any) []byte {
+				q := p.(*gnarkbn.G2Affine)
+				x1, x0, y1, y0 := q.X.A1.Bytes(), q.X.A0.Bytes(), q.Y.A1.Bytes(), q.Y.A0.Bytes()
+				return c05Cat(x1[:], x0[:], y1[:], y0[:])
+			},
+			func(a, b any) any { return new(gnarkbn.G2Affine).Add(a.(*gnarkbn.G2Affine), b.(*gnarkbn.G2Affine)) },
+			func(a any, k *big.Int) any {
+				return new(gnarkbn.G2Affine).ScalarMultiplication(a.(*gnarkbn.G2Affine), k)
+			}},
+	}
+}
+
+// c05ScalarFamily returns the scalars at which a double-and-add ladder (or a windowed / GLV variant) meets its
+// degenerate additions: q*n+j around every multiple of the group order that fits 256 bits, the same values shifted
+// left by 1..maxShift bits with every fill of the low bits (a ladder prefix equal to q*n+j), and the edges of the
+// 256-bit range.
+func c05ScalarFamily(maxQShift int, maxShift uint) []*big.Int {
+	seen := map[string]bool{}
+	var out []*big.Int
+	lim := new(big.Int).Lsh(big.NewInt(1), 256)
+	put := func(v *big.Int) {
+		if v.Sign() < 0 || v.Cmp(lim) >= 0 || seen[v.String()] {
+			return
+		}
+		seen[v.String()] = true
+		out = append(out, v)
+	}
+	for q := int64(0); q <= 5; q++ {
+		for j := int64(-3); j <= 3; j++ {
+			put(new(big.Int).Add(new(big.Int).Mul(c05N, big.NewInt(q)), big.NewInt(j)))
+		}
+	}
+	for q := int64(1); q <= int64(maxQShift); q++ {
+		for j := int64(0); j <= 3; j++ {
+			base := new(big.Int).Add(new(big.Int).Mul(c05N, big.NewInt(q)), big.NewInt(j))
+			for sh := uint(1); sh <= maxShift; sh++ {
+				for t := int64(0); t < 1<<sh; t++ {
+					put(new(big.Int).Add(new(big.Int).Lsh(base, sh), big.NewInt(t)))
+				}
+			}
+		}
+	}
+	half := new(big.Int).Rsh(c05N, 1)
+	for _, v := range []*big.Int{half, new(big.Int).Add(half, big.NewInt(1)), new(big.Int).Lsh(big.NewInt(1), 255), new(big.Int).Add(new(big.Int).Lsh(big.NewInt(1), 255), big.NewInt(1)),
+		new(big.Int).Sub(lim, big.NewInt(2)), new(big.Int).Sub(lim, big.NewInt(1)), new(big.Int).Lsh(big.NewInt(1), 128), new(big.Int).Sub(new(big.Int).Lsh(big.NewInt(1), 128), big.NewInt(1))} {
+		put(v)
+	}
+	return out
 }
